@@ -66,6 +66,8 @@ def strategy_(draw, tier):
     spec["requests"] = draw(strat.requests(spec["disk_size"], bs, count=6, points=pts, whole_limit=4 << 20))
     if draw(st.integers(0, 5)) == 0:  # a parent image below: zero blocks stay zero, unallocated ones fall through
         pbs = bs if draw(st.booleans()) else 1 << draw(st.sampled_from([9, 12, 16, 20]))  # the parent may use another block size
+        while spec["disk_size"] // pbs > 1 << 18:  # the block map is read at open: keep it below 1 MiB (cost bound)
+            pbs <<= 1
         spec["parent"] = draw(vdi_spec(tier, layer=1, fixed_geometry=(pbs, -(-spec["disk_size"] // pbs), spec["disk_size"])))
     return spec
 
